@@ -138,4 +138,17 @@ TEXT = {
         "note": "Trusted as C18; now is a parameter of the model (read by the harness within the same second).",
         "technique": "Lean 4 proof (per-mutator refinement lemma composed by induction over call sequences; decision logic) + correspondence check",
     },
+    "C13": {
+        "level": "PARTIAL. Lean theorems about an independent RFC-level implementation of the documented scheme (SHA-256, HMAC, PBKDF2, ChaCha20, "
+                 "Poly1305, the AEAD construction, the envelope): unseal∘seal = id for every key, 12-byte nonce, version id and payload; the "
+                 "layout (format byte 1, nonce, length = payload + 29; 17 bytes of associated data = app id 1 ‖ version id); short input and a "
+                 "wrong format byte are rejected before decryption; acceptance implies the Poly1305 tag recomputed for this key, nonce and "
+                 "version id matches; the constants extracted from the source are the documented ones (600000 iterations). That any modified "
+                 "or foreign envelope is ALWAYS rejected, and that nothing leaks, rests on the AEAD's security and is not a theorem. Tied to the "
+                 "code by Lean opening what the real code sealed (deriving the key itself) and vice versa, and by a tamper sweep on which both "
+                 "sides must agree.",
+        "design_ref": "DESIGN.md §5 C13",
+        "note": "Trusted: Lean kernel + standard axioms; security of ChaCha20-Poly1305 and PBKDF2; freshness of OS randomness.",
+        "technique": "Lean 4 proof (round-trip and layout laws over an RFC-level crypto model) + bidirectional correspondence check with tamper sweep",
+    },
 }
